@@ -158,6 +158,40 @@ pub fn run() -> i32 {
     r.boxes.push(json!({"box": "rule faults respelt with letters that carry combining marks (ã, t͡s, n̩, d͡z) x positions", "decorated_faults": n_decorated, "cases": d.evals, "located_at_planted_line": d.located, "fault_did_not_trigger": d.not_triggered, "distinct_error_variants": d.variants.len()}));
     r.guard(d.located * 2 > d.evals, "more than half of the decorated faults are raised and located");
     a.evals += d.evals; a.located += d.located; a.viols.extend(std::mem::take(&mut d.viols));
+    // misspelt feature names: the message of an unknown feature looks for the closest known spelling, so every known spelling x every single
+    // edit at its ends / in its middle (a letter doubled, dropped, swapped with its neighbour) is planted as `p > [+name]` in the second base
+    // project (first line of the second group) and as a deromaniser line `x > a:[+name]`: the error must still be shown, with its line
+    let syn: Value = serde_json::from_str(&std::fs::read_to_string(format!("{}/fixtures/feature_synonyms.json", root())).unwrap_or_default()).unwrap_or(Value::Null);
+    let mut names: Vec<String> = vec![];
+    if let Some(o) = syn.as_object() { for (_, v) in o { for sp in v["spellings"].as_array().cloned().unwrap_or_default() { if let Some(t) = sp.as_str() { names.push(t.to_string()); } } } }
+    names.sort(); names.dedup();
+    let mut miss: Vec<String> = vec![];
+    for nm in &names {
+        let c: Vec<char> = nm.chars().collect();
+        for i in 0..c.len() {
+            let mut dbl = c.clone(); dbl.insert(i, c[i]); miss.push(dbl.iter().collect());
+            if c.len() > 2 { let mut drop = c.clone(); drop.remove(i); miss.push(drop.iter().collect()); }
+            if i + 1 < c.len() { let mut sw = c.clone(); sw.swap(i, i + 1); miss.push(sw.iter().collect()); }
+        }
+    }
+    miss.sort(); miss.dedup(); miss.retain(|m| !names.contains(m));
+    let mut mf = Acc::default();
+    let mproj = &base_projects()[1];
+    let (mut mal, mut mal_ok) = (0u64, 0u64);
+    for m in &miss {
+        let fault = format!("p > [+{}]", m);
+        let mut p: Vec<Vec<String>> = mproj.iter().map(|x| x.iter().map(|s| strip(s)).collect()).collect();
+        let g = p.len() - 1; p[g][0] = fault.clone();
+        let groups: Vec<RuleGroup> = p.iter().enumerate().map(|(i, rs)| RuleGroup { name: format!("g{}", i), rule: rs.clone(), description: String::new() }).collect();
+        check_rule_fault(&groups, g, 0, &fault, &mut mf);
+        let afault = format!("x > a:[+{}]", m);
+        let into = vec!["sh > ʃ".to_string(), afault.clone()];
+        match check_alias_fault(&["sha".to_string()], &into, &[], &afault, 1, true) { Some(None) => { mal += 1; mal_ok += 1; } Some(Some(v)) => { mal += 1; mf.viols.push(v); } None => {} }
+    }
+    r.boxes.push(json!({"box": "misspelt feature names (every known spelling x letter doubled / dropped / swapped) as a rule fault and as a deromaniser fault", "known_spellings": names.len(), "misspellings": miss.len(), "rule_cases": mf.evals, "located_at_planted_line": mf.located, "fault_did_not_trigger": mf.not_triggered, "alias_cases": mal, "alias_located": mal_ok}));
+    r.guard(mf.located > 1000 && mal_ok > 1000, "misspelt features: more than 1000 located as rule faults and as alias faults");
+    a.evals += mf.evals + mal; a.located += mf.located + mal_ok; a.not_triggered += mf.not_triggered; a.viols.extend(std::mem::take(&mut mf.viols));
+
     r.boxes.push(json!({"box": "rule faults x positions", "cases": a.evals, "located_at_planted_line": a.located, "fault_did_not_trigger": a.not_triggered, "distinct_error_variants": a.variants.len(), "variants": a.variants}));
     r.guard(a.variants.len() >= 35, "at least 35 distinct rule error variants were provoked");
     r.guard(a.not_triggered * 20 < a.evals, "fewer than 5% of planted faults failed to trigger");
